@@ -563,7 +563,7 @@ class C02(core.Property):
     def gen_frames(self, chk):
         rng = chk.rng
         out = []
-        nrand = chk.n(700, 15000)
+        nrand = chk.n(600, 15000)
         for i in range(nrand):
             big = (i % 40 == 7)
             cl = body_classes(rng, big)
@@ -630,7 +630,7 @@ class C02(core.Property):
     def gen_raw(self, chk):
         rng = chk.rng
         out = []
-        for i in range(chk.n(900, 20000)):
+        for i in range(chk.n(800, 20000)):
             pieces = []
             for _ in range(rng.randint(1, 5)):
                 r = rng.random()
@@ -825,6 +825,15 @@ class C02(core.Property):
         if bad:
             return [{"case": None, "impl": None, "S": None, "verdict": "violation", "broken": "extracted driver sanity",
                      "log": repr(bad)[:1500], "suffix": "no-failing-input-found"}]
+        if self.id == "C02":
+            # the loops reached through the real entry points (start_io / _start_io_sync / start_tcp / client)
+            import c02_entry
+            t0 = time.time()
+            v, n = c02_entry.check(chk)
+            self.extra_coverage["entry_points"] = {"cases": n, "violations": len(v), "wall_s": round(time.time() - t0, 2),
+                                                   "entries": list(c02_entry.ENTRY_POINTS)}
+            if v:
+                return v[:3]
         if chk.quick:
             return []
         r = core.sh(f"timeout 1500 coqchk -silent -o -Q {core.COQ} Pygls {self.COQCHK}", cwd=core.COQ, timeout=1600)
